@@ -41,6 +41,8 @@ type omniSched struct {
 	Events []omniEv  `json:"events"`
 	Types  [2]string `json:"types"` // feeder type of l1, l2: sumdb | tiles
 	Start  int       `json:"start"` // abstract size every log publishes first (default 1)
+	// Partial makes outages partial: the log's checkpoint endpoint keeps answering, everything else (tiles, proofs) fails.
+	Partial bool `json:"partial"`
 }
 
 type omniEvent struct {
@@ -364,7 +366,14 @@ func execOmni(s omniSched, dir string, seed int64) ([]any, error) {
 			down := e.A == "outage"
 			isDown[e.L] = down
 			if down {
-				logs[e.L].SetHostile(func(rw http.ResponseWriter, r *http.Request) bool { http.Error(rw, "outage", 503); return true })
+				partial := s.Partial
+				logs[e.L].SetHostile(func(rw http.ResponseWriter, r *http.Request) bool {
+					if partial && (r.URL.Path == "/latest" || r.URL.Path == "/checkpoint") {
+						return false
+					}
+					http.Error(rw, "outage", 503)
+					return true
+				})
 			} else {
 				logs[e.L].SetHostile(nil)
 			}
